@@ -290,3 +290,56 @@ pub fn gen_storm(seed: u64, n: usize) -> Vec<Scenario> {
     }
     v
 }
+
+/// NAT family (C19): IPv4/UDP/Dublin over a single path with 0..3 rewriting devices and silent hops,
+/// plus other configurations over the same kind of path (which must report not-applicable).
+pub fn gen_nat(seed: u64, n: usize) -> Vec<Scenario> {
+    let mut v = gen_loop(seed ^ 0x1919, n, "nat");
+    let mut rng = StdRng::seed_from_u64(seed ^ 0x5eed_0019);
+    for sc in &mut v {
+        if rng.random_range(0..10) < 7 {
+            sc.fam = 4;
+            sc.proto = "udp".into();
+            sc.strat = "dublin".into();
+            sc.ports = (*pick(&mut rng, &["src", "dest", "both"])).into();
+            sc.privileged = true;
+            sc.packet_size = *pick(&mut rng, &[28, 29, 56, 84, 200, 1024]);
+        }
+        let dist = rng.random_range(2..=10u8);
+        let mut path = random_path(&mut rng, 0, dist, false);
+        path.dist = dist;
+        path.hops.truncate(usize::from(dist) - 1);
+        while path.hops.len() < usize::from(dist) - 1 {
+            let i = path.hops.len() as u16;
+            path.hops.push(Hop {
+                addr: 300 + i + 1,
+                ..Hop::default()
+            });
+        }
+        let ndev = *pick(&mut rng, &[0, 0, 1, 1, 2, 3]);
+        for d in 0..ndev {
+            let at = rng.random_range(0..path.hops.len().max(1));
+            if let Some(h) = path.hops.get_mut(at) {
+                h.nat = 10 + d;
+            }
+        }
+        for h in &mut path.hops {
+            if rng.random_range(0..5) == 0 {
+                h.silent = true;
+            }
+            h.quote = *pick(&mut rng, &[0, 1, 4]);
+        }
+        sc.topo = Topo {
+            paths: vec![path],
+            ..Topo::default()
+        };
+        sc.max_ttl = 16;
+        sc.first_ttl = *pick(&mut rng, &[1, 1, 2, 3]);
+        sc.max_inflight = 24;
+        sc.net.loss = *pick(&mut rng, &[0, 10]);
+        sc.net.late_pct = 0;
+        sc.snap = "full".into();
+        sc.max_rounds = rng.random_range(2..=5);
+    }
+    v
+}
